@@ -99,6 +99,9 @@ fn standalone_verdict(world_pkg: &[u8], output: &[u8]) -> Result<Verdict, String
     Ok(match validate_target(&types, *w, comp.ty()) {
         Ok(()) => Verdict::Accept,
         Err(report) => {
+            if std::env::var("C11_DEBUG").is_ok() {
+                eprintln!("validate_target report: {report}");
+            }
             if report.imports_not_in_target().next().is_some() {
                 Verdict::ImportNotInTarget
             } else if report.missing_exports().next().is_some() {
@@ -120,28 +123,55 @@ fn reference_verdict(world_pkg: &[u8], output: &[u8]) -> Result<bool, String> {
 
 pub fn run(ctx: &mut Ctx) {
     let total = ctx.n(1_500, 200_000);
-    for case in ctx.cases(total) {
+    // directed witness of the recorded finding (resource of an interface that the world both imports,
+    // as a dependency, and exports), then the random pairs
+    let witness = crate::witness::WITNESS_BASE;
+    let mut cases: Vec<u64> = [witness, witness + 1, witness + 2].into_iter().filter(|c| ctx.mine(*c)).collect();
+    cases.extend(ctx.cases(total));
+    for case in cases {
         if ctx.out_of_budget() {
             ctx.count("budget-stop");
             break;
         }
         ctx.begin(case);
+        let fixed = case >= witness && case <= witness + 2;
+        let fixed_b = case == witness + 1;
+        let fixed_c = case == witness + 2;
         let mut rng = ctx.rng(case);
         let mut names = Names::new();
         let mut lo = LibOpts::default();
         lo.n_ifaces = rng.range(2, 4);
         lo.versions = rng.chance(1, 2);
-        lo.iface.resources = rng.chance(1, 4);
+        lo.iface.resources = rng.chance(1, 4) || fixed;
         let with_resources = lo.iface.resources;
         lo.iface.max_types = 2;
-        let pkgs = witgen::gen_pkgs(&mut rng, &lo, &mut names);
-        let pkg_texts: Vec<(String, String)> = pkgs.iter().enumerate().map(|(i, p)| (format!("lib{i}"), witgen::print_pkg(p))).collect();
+        const WITNESS_LIB: &str = "package ns:lib;\n\ninterface i0 {\n    resource r;\n}\n\ninterface i2 {\n    use i0.{r};\n    f: func() -> r;\n}\n\ninterface i3 {\n    use i2.{r};\n    g: func(x: borrow<r>);\n}\n";
+        const WITNESS_LIB_B1: &str = "package ns:lib@2.0.1;\n\ninterface i0 {\n    resource r;\n}\n\ninterface i1 {\n    use i0.{r};\n    f: func() -> r;\n}\n";
+        const WITNESS_LIB_B2: &str = "package ns:lib@2.1.0;\n\ninterface i0 {\n    resource r;\n}\n";
+        const WITNESS_LIB_C: &str = "package ns:lib;\n\ninterface i0 {\n    resource r;\n}\n\ninterface i2 {\n    use i0.{r as q};\n    f: func() -> q;\n}\n";
+        let fixed_texts: Vec<&str> = if fixed_b { vec![WITNESS_LIB_B1, WITNESS_LIB_B2] } else if fixed_c { vec![WITNESS_LIB_C] } else { vec![WITNESS_LIB] };
+        let pkgs = if fixed { fixed_texts.iter().map(|t| crate::witness::model_of_pub(t)).collect() } else { witgen::gen_pkgs(&mut rng, &lo, &mut names) };
+        let pkg_texts: Vec<(String, String)> = if fixed { fixed_texts.iter().enumerate().map(|(i, t)| (format!("lib{i}"), t.to_string())).collect() } else { pkgs.iter().enumerate().map(|(i, p)| (format!("lib{i}"), witgen::print_pkg(p))).collect() };
         let ids: Vec<String> = pkgs.iter().flat_map(|p| p.ifaces.iter().map(move |i| p.iface_id(&i.name))).collect();
         // the component under composition
         let mut imports: Vec<WorldItem> = Vec::new();
         let mut exports: Vec<WorldItem> = Vec::new();
         let mut shuffled = ids.clone();
         rng.shuffle(&mut shuffled);
+        if fixed_b {
+            imports.push(WorldItem::Iface { id: "ns:lib/i1@2.0.1".into() });
+            imports.push(WorldItem::Iface { id: "ns:lib/i0@2.1.0".into() });
+            shuffled.clear();
+        } else if fixed_c {
+            exports.push(WorldItem::Iface { id: "ns:lib/i2".into() });
+            exports.push(WorldItem::Iface { id: "ns:lib/i0".into() });
+            shuffled.clear();
+        } else if fixed {
+            imports.push(WorldItem::Iface { id: "ns:lib/i3".into() });
+            exports.push(WorldItem::Iface { id: "ns:lib/i2".into() });
+            exports.push(WorldItem::Iface { id: "ns:lib/i0".into() });
+            shuffled.clear();
+        }
         for id in shuffled.iter().take(rng.range(0, 2)) {
             if !imports.iter().any(|i| model_compatible(i.extern_name(), id)) {
                 imports.push(WorldItem::Iface { id: id.clone() });
@@ -168,10 +198,13 @@ pub fn run(ctx: &mut Ctx) {
             continue;
         };
         // the target world
-        let perturb = *rng.pick(&[
+        let mut perturb = *rng.pick(&[
             Perturb::None, Perturb::None, Perturb::Superset, Perturb::ImportRemoved, Perturb::ExportAdded, Perturb::ImportTypeChanged,
             Perturb::ExportTypeChanged, Perturb::VersionShift,
         ]);
+        if fixed {
+            perturb = Perturb::None;
+        }
         let mut wi = imports.clone();
         let mut we = exports.clone();
         let mut effective = perturb;
@@ -231,7 +264,7 @@ pub fn run(ctx: &mut Ctx) {
             ctx.count("gen-fail");
             continue;
         };
-        let body = if rng.chance(1, 2) {
+        let body = if rng.chance(1, 2) && !fixed {
             "let i = new test:c0 { ... };\nexport i...;\n".to_string()
         } else {
             let mut s = String::from("let i = new test:c0 { ... };\n");
@@ -272,7 +305,50 @@ pub fn run(ctx: &mut Ctx) {
                 continue;
             }
         };
-        let v_ref = if with_resources { None } else { reference_verdict(&world_pkg, &output).ok() };
+        let v_ref = reference_verdict(&world_pkg, &output).ok();
+        // Recorded finding: wac's checker identifies resources by name, not by identity. Where the
+        // world both imports (possibly as a dependency of an imported interface) and exports an
+        // interface that defines or passes on a resource, the imported and the exported resource
+        // are different types with the same name, and the two wac checks (which see the same
+        // composition through different representations) disagree with each other or with the
+        // reference.
+        let zone = with_resources && {
+            let imported: Vec<String> = world.imports.iter().filter(|i| i.is_instance()).flat_map(|i| {
+                let mut v = witgen::use_closure(&pkgs, i.extern_name());
+                v.push(i.extern_name().to_string());
+                v
+            }).collect();
+            world.exports.iter().filter(|e| e.is_instance()).any(|e| {
+                let mut v = witgen::use_closure(&pkgs, e.extern_name());
+                v.push(e.extern_name().to_string());
+                v.iter().any(|x| imported.contains(x))
+            })
+        };
+        // ... and the same for two compatible versions of an interface with a resource that the world
+        // imports side by side (one of them usually as a dependency): wac merges them onto one import
+        let zone_b = with_resources && {
+            let all: Vec<String> = world.imports.iter().chain(world.exports.iter()).filter(|i| i.is_instance()).flat_map(|i| {
+                let mut v = witgen::use_closure(&pkgs, i.extern_name());
+                v.push(i.extern_name().to_string());
+                v
+            }).collect();
+            all.iter().any(|a| all.iter().any(|b| a != b && model_compatible(a, b)))
+        };
+        // ... and for an exported interface that `use`s a resource of another interface: in the output
+        // the resource is named after whichever export comes first
+        let zone_c = with_resources && world.exports.iter().filter(|e| e.is_instance()).any(|e| {
+            witgen::find_iface(&pkgs, e.extern_name()).map_or(false, |i| i.uses.iter().any(|u| u.is_resource))
+        });
+        let zsuf = if zone {
+            ":interface-with-a-resource-both-imported-and-exported"
+        } else if zone_b {
+            ":resource-interface-at-two-compatible-versions"
+        } else if zone_c {
+            ":exported-interface-uses-a-resource-of-another-interface"
+        } else {
+            ""
+        };
+        let zone = zone || zone_b || zone_c;
         ctx.count(&format!("pair:{effective:?}"));
         ctx.count(&format!("resolve:{}", class(&v_resolve)));
         let want = match effective {
@@ -282,25 +358,44 @@ pub fn run(ctx: &mut Ctx) {
             Perturb::ImportTypeChanged | Perturb::ExportTypeChanged => Some(Verdict::Mismatch),
             Perturb::VersionShift => None,
         };
+        // inside a zone the perturbation is irrelevant to the signature: the finding is the zone
         let p = format!("{effective:?}");
+        // inside a zone every disagreement is one finding per zone, whatever the verdict combination
+        let zsig = format!("C11:target-checks-disagree-on-resource-identity{zsuf}");
+        let sig_of = |generic: String| if zone { zsig.clone() } else { generic };
+        // the expectation a pair was constructed for presupposes that a component conforms to the
+        // world it was built from; wit-component's world encoding and component encoding route the
+        // `use` of an exported interface differently in the zone above, so there the reference decides
+        let want = if zone && matches!(effective, Perturb::None | Perturb::Superset) && (v_ref == Some(false) || v_standalone != Verdict::Accept) {
+            ctx.count("expectation-dropped:reference-says-the-component-does-not-conform-to-its-own-world");
+            None
+        } else {
+            want
+        };
         if let Some(w) = &want {
             if v_resolve != *w {
-                ctx.violation(case, &format!("C11:resolve-verdict:{p}:{}-vs-expected-{}", class(&v_resolve), class(w)), format!("Document::resolve -> {v_resolve:?}, the pair was constructed for {w:?}"), input.clone());
+                ctx.violation(case, &sig_of(format!("C11:resolve-verdict:{p}:{}-vs-expected-{}", class(&v_resolve), class(w))), format!("Document::resolve -> {v_resolve:?}, the pair was constructed for {w:?}"), input.clone());
             }
             if v_standalone != *w {
-                ctx.violation(case, &format!("C11:standalone-verdict:{p}:{}-vs-expected-{}", class(&v_standalone), class(w)), format!("validate_target -> {v_standalone:?}, the pair was constructed for {w:?}"), input.clone());
+                ctx.violation(case, &sig_of(format!("C11:standalone-verdict:{p}:{}-vs-expected-{}", class(&v_standalone), class(w))), format!("validate_target -> {v_standalone:?}, the pair was constructed for {w:?}"), input.clone());
             }
         }
         if (v_resolve == Verdict::Accept) != (v_standalone == Verdict::Accept) {
-            ctx.violation(case, &format!("C11:resolution-and-standalone-check-disagree:{p}:{}-vs-{}", class(&v_resolve), class(&v_standalone)), format!("resolve -> {v_resolve:?}, validate_target on the encoded output -> {v_standalone:?}"), input.clone());
+            if std::env::var("C11_DEBUG").is_ok() {
+                std::fs::write("/tmp/c11_output.wat", wasmprinter::print_bytes(&output).unwrap_or_default()).ok();
+                std::fs::write("/tmp/c11_world.wat", wasmprinter::print_bytes(&world_pkg).unwrap_or_default()).ok();
+            }
+            // for the report only: what the reference validator says about `output <: world`
+            let r = reference_verdict(&world_pkg, &output);
+            ctx.violation(case, &sig_of(format!("C11:resolution-and-standalone-check-disagree:{p}:{}-vs-{}", class(&v_resolve), class(&v_standalone))), format!("resolve -> {v_resolve:?}, validate_target on the encoded output -> {v_standalone:?}; wasmparser `output <: world` = {r:?}; output:\n{}", wasmprinter::print_bytes(&output).unwrap_or_default()), input.clone());
         }
         if let Some(r) = v_ref {
             ctx.count(if r { "reference:subtype" } else { "reference:not-subtype" });
             if r != (v_standalone == Verdict::Accept) {
-                ctx.violation(case, &format!("C11:standalone-check-and-reference-disagree:{p}:standalone={}:reference={r}", class(&v_standalone)), format!("validate_target -> {v_standalone:?}, wasmparser `output <: world` = {r}"), input.clone());
+                ctx.violation(case, &sig_of(format!("C11:standalone-check-and-reference-disagree:{p}:standalone={}:reference={r}", class(&v_standalone))), format!("validate_target -> {v_standalone:?}, wasmparser `output <: world` = {r}"), input.clone());
             }
             if r != (v_resolve == Verdict::Accept) {
-                ctx.violation(case, &format!("C11:resolution-and-reference-disagree:{p}:resolve={}:reference={r}", class(&v_resolve)), format!("resolve -> {v_resolve:?}, wasmparser `output <: world` = {r}"), input.clone());
+                ctx.violation(case, &sig_of(format!("C11:resolution-and-reference-disagree:{p}:resolve={}:reference={r}", class(&v_resolve))), format!("resolve -> {v_resolve:?}, wasmparser `output <: world` = {r}"), input.clone());
             }
         }
         ctx.shape_str(&format!("{p}|{}|{}", witgen::print_world_pkg(&comp_world).chars().filter(|c| !c.is_ascii_digit()).collect::<String>(), body.len()));
